@@ -14,6 +14,9 @@ CURVES = {'tz1': b'ed', 'tz2': b'sp', 'tz3': b'p2', 'tz4': b'BL'}
 SCRIPT = {'code': [{'prim': 'parameter', 'args': [{'prim': 'unit'}]}, {'prim': 'storage', 'args': [{'prim': 'unit'}]},
                    {'prim': 'code', 'args': [[{'prim': 'CDR'}, {'prim': 'NIL', 'args': [{'prim': 'operation'}]}, {'prim': 'PAIR'}]]}],
           'storage': {'prim': 'Unit'}}
+SCRIPT_BIG = {'code': [SCRIPT['code'][0], SCRIPT['code'][1],
+                       {'prim': 'code', 'args': [[x for _ in range(100) for x in ({'prim': 'DUP'}, {'prim': 'DROP'})] + SCRIPT['code'][2]['args'][0]]}],
+              'storage': {'prim': 'Unit'}}
 _keys = {}
 
 
@@ -60,6 +63,8 @@ def add_content(g, kind, j=0, dest=DEST):
         return g.reveal()
     if kind == 'origination':
         return g.origination(script=SCRIPT, balance=j)
+    if kind == 'origination_big':
+        return g.origination(script=SCRIPT_BIG, balance=j)
     raise ValueError(kind)
 
 
